@@ -206,6 +206,16 @@ def apply_edit(r, W, kind):
         cands = [p for p in nps]
         if not cands:
             return None
+        withegress = [q for q in nps if q.get('egress')]
+        if withegress and r.random() < 0.3:
+            # egress rules only, no policyTypes: the default is [Ingress, Egress] - the selected pods are isolated for ingress too
+            p = r.choice(withegress)
+            W['netpols'][nps.index(p)].update({'policyTypes': ['Ingress', 'Egress'], 'ingress': []})
+            p.pop('policyTypes', None)
+            p['ingress'] = []
+            if r.random() < 0.5:
+                del p['ingress']
+            return W2, 'eq', [], [], 'explicit policyTypes [Ingress, Egress] of %s (egress rules only) replaced by the default' % p['name']
         p = r.choice(cands)
         if r.random() < 0.35 and sorted(meta.effective_types(p)) == ['Ingress'] and not p.get('egress'):
             # [Ingress] spelled by default with an explicit EMPTY egress list (nothing to default from) against the explicit types
